@@ -20,6 +20,10 @@ def agg_sets(vt, maxsize):
     out = [[a] for a in ok]
     if maxsize >= 2:
         out += [list(c) for c in itertools.combinations(ok, 2)]
+    # DISTINCT forms of the other aggregates: alone, next to COUNT(*), and next to their plain form (NULL, not 0, over no non-NULL value)
+    extra = ['MIN(DISTINCT v)'] + (['SUM(DISTINCT v)', 'AVG(DISTINCT v)'] if vt in ('int64', 'float64') else [])
+    for e in extra:
+        out += [[e], [e, 'COUNT(*)'], [e, e.replace('DISTINCT ', '')]]
     return out
 
 
@@ -45,6 +49,9 @@ def stmts(vt, maxsize, emptying):
         st.append({'sql': 'SELECT g, v, %s FROM t GROUP BY g, v' % al, 'tag': 'grouped-2keys', 'strict': True, 'nontrivial': True})
     st.append({'sql': 'SELECT g, v FROM t GROUP BY g, v', 'tag': 'grouped-2keys-noagg', 'strict': True, 'nontrivial': True})
     st.append({'sql': 'SELECT DISTINCT g, v FROM t', 'tag': 'distinct-2cols', 'strict': True, 'nontrivial': True})
+    # an aggregate whose alias repeats the group column's name
+    st.append({'sql': 'SELECT g AS x, COUNT(v) AS g FROM t GROUP BY g', 'tag': 'aggregate-alias-is-group-column', 'strict': True, 'nontrivial': True})
+    st.append({'sql': 'SELECT g AS x, MAX(v) AS g, COUNT(*) AS v FROM t GROUP BY g', 'tag': 'aggregate-alias-is-group-column-2', 'strict': True, 'nontrivial': True})
     return st
 
 
@@ -120,7 +127,7 @@ def run(rep):
             us.append(u)
         else:
             us.append(dict(u, config='default'))
-    rep.rule = ('all multisets of <= 3 rows over (g,v) in {NULL,x,y}^2 for typings %s; every aggregate set of size <= %d from COUNT(*)/COUNT/SUM/AVG/MIN/MAX/COUNT(DISTINCT), '
+    rep.rule = ('all multisets of <= 3 rows over (g,v) in {NULL,x,y}^2 for typings %s; every aggregate set of size <= %d from COUNT(*)/COUNT/SUM/AVG/MIN/MAX/COUNT(DISTINCT) plus SUM/AVG/MIN(DISTINCT) alone and paired, aggregate aliases that repeat the name of the group column, '
                 'global / GROUP BY g / WHERE-emptied / filtered-to-NULL-key / above a LEFT JOIN; layouts memory 1 batch, memory 6 batches (rows x2), Parquet row-group-per-row '
                 '(QE_MORSEL default and 0), memory limit 1 byte (spill path); plus one 70,000-group table (NULL-only, mixed and non-NULL groups) per value type in 8 memory batches and as Parquet; oracle SQLite; Execution errors are violations'
                 % (typings, 1 if quick else 2))
